@@ -97,6 +97,18 @@ def plan_eq(tier, seed, props):
     return items
 
 
+def plan_tx(tier, seed, props):
+    q = tier == "quick"
+    items = []
+    for o, f in ((NONE, 0.1 if q else 0.6), (SET, 0.03 if q else 0.2), (MSET, 0.03 if q else 0.2), (MERGE, 0.03 if q else 0.2),
+                 (SETMERGE, 0.02 if q else 0.2), (MSETMERGE, 0.02 if q else 0.2)):
+        items += [item("scalarr_4_3", o, f), item("nestarr_2", o, f), item("obj_2", o, f), item("deep", o, f / 2)]
+    for o in (KEYS, O(keys=["id"], merge=True)):
+        items += [item("keyed_2", o, 0.5 if q else 1.0), item("keyeddeep", o, 1.0)]
+    items += [dict(family="hunks_wf", opts=NONE, frac=1.0, void=False, mode="built", max=4000 if q else 60000, nf=False)]
+    return items
+
+
 class Stage:
     def __init__(self, driver, module, planfn, props=None, bins=False, table="plain", yaml_every=8, extra=None):
         self.driver, self.module, self.planfn = driver, module, planfn
@@ -109,6 +121,9 @@ CHECKS = {
     "C01": dict(stages=[Stage("dp", "TraceDP", plan_dp)], design=["MCPatch"],
                 rule="session = one (a, b, options) triple: Diff as returned, Patch of every prefix on fresh documents, "
                      "Equals; non-trivial = the diff has at least one hunk"),
+    "C02": dict(stages=[Stage("tx", "TraceText", plan_tx)], design=["MCText"],
+                rule="session = one diff value (returned by Diff, or built from DiffElement fields: every well-formed single hunk, "
+                     "seeded pairs and triples): Render, ReadDiffString, re-Render, colour, Patch of both on targets"),
     "C03": dict(stages=[Stage("pt", "TraceDP", plan_pt)], design=["MCPatch"],
                 rule="session = one list-mode diff with its sub-sequences applied to a, b and perturbed targets; "
                      "non-trivial = at least one target rejected and one accepted"),
